@@ -329,8 +329,10 @@ static void cmd_guard(int nt, char **t)
 
 static void flush_out(void) { if (out.n) { fwrite(out.b, 1, out.n, stdout); ob_reset(&out); } fflush(stdout); }
 
+static int flush_each;
 int main(int argc, char **argv)
 {
+	flush_each = getenv("VF_FLUSH") != NULL;
 	char *line = NULL; size_t cap = 0; ssize_t k; FILE *in = stdin;
 	if (argc > 1) { in = fopen(argv[1], "r"); if (!in) { perror(argv[1]); return 3; } }
 	if (argc > 2) { if (!freopen(argv[2], "w", stdout)) { perror(argv[2]); return 3; } }
@@ -353,6 +355,7 @@ int main(int argc, char **argv)
 		}
 		else ob_printf(&out, "! unknown %s", tokv[0]);
 		ob_putc(&out, '\n');
+		if (flush_each) flush_out();
 	}
 	flush_out();
 	return 0;
